@@ -41,6 +41,14 @@ struct World
   std::vector<std::string> faults;
   int next_loc_id{0};
   uint64_t dead_accesses{0};
+  std::vector<int> owner;     // owner[loc]: the single actor that stores to the location (-1 unknown); its own
+                              // loads return the newest store and consume no schedule choice
+  void set_owner(int loc, int a)
+  {
+    if (static_cast<size_t>(loc) >= owner.size()) { owner.resize(static_cast<size_t>(loc) + 1, -1); }
+    owner[static_cast<size_t>(loc)] = a;
+  }
+  int owner_of(int loc) const { return static_cast<size_t>(loc) < owner.size() ? owner[static_cast<size_t>(loc)] : -1; }
 
   void begin_call(int a, std::vector<int> ch = {})
   {
@@ -160,9 +168,28 @@ public:
     check_alive("load");
     int const a = w.actor;
     if (a < 0) { return _hist.back().v; }
-    // legal stores: index >= _seen[a]; collapse runs of equal values, newest first
+    if (w.owner_of(_id) == a)
+    {
+      // the writer reading its own location back: newest store, no choice consumed
+      _seen[a] = _hist.size() - 1;
+      _last_epoch[a] = w.epoch[a];
+      w.log.push_back(AccessRec{a, _id, false, static_cast<int>(mo), to_u64(_hist.back().v), false});
+      return _hist.back().v;
+    }
+    // legal stores: index >= _seen[a] (coherence) and not older than the newest store of the other actor that
+    // happens-before this load (a store stamped with an epoch the reader has synchronised with);
+    // collapse runs of equal values, newest first
+    size_t floor_idx = _seen[a];
+    for (size_t i = _hist.size(); i-- > floor_idx;)
+    {
+      if (_hist[i].writer >= 0 && _hist[i].writer != a && _hist[i].epoch <= w.view[a])
+      {
+        floor_idx = i;
+        break;
+      }
+    }
     std::vector<size_t> legal; // index of the newest store of each distinct run
-    for (size_t i = _hist.size(); i-- > _seen[a];)
+    for (size_t i = _hist.size(); i-- > floor_idx;)
     {
       if (legal.empty() || !(_hist[legal.back()].v == _hist[i].v)) { legal.push_back(i); }
     }
